@@ -393,6 +393,11 @@ class Progress:
                 a = strip_ref(t[2][0]) if t[2] else None
                 if a is not None and is_const(a) and isinstance(a[1], str):
                     return 'pos' if len(a[1]) > 0 else 'nonneg'
+                # the text of a regex match: as long as the shortest string the regex matches
+                if a is not None and a[0] == 'call' and strip_generics(a[1]).split('::')[-1] == 'as_str' and 'Match' in a[1] and a[2]:
+                    rx = self.match_regex(strip_ref(a[2][0]))
+                    if rx is not None and regex_min_width(rx) >= 1:
+                        return 'pos'
                 return 'nonneg'
             if nm in ('end', 'start') and 'Match' in t[1]:
                 if nm == 'start':
